@@ -531,6 +531,18 @@ fn gen_entries(rng: &mut Rng) -> Vec<(u64, u64)> {
         };
         e.push((id, val));
     }
+    if rng.chance(1, 5) {
+        // many identifiers this endpoint does not know, in long encodings: a legal frame far
+        // longer than any frame made of the settings h3 knows, so that it also arrives in pieces
+        let k = 8 + rng.usize(40);
+        let base = rng.below(1 << 40);
+        for j in 0..k as u64 {
+            let id = if rng.bool() { 0x21 + 0x1f * ((1 << 30) + base + j) } else { (1 << 33) + (base + j) * 3 };
+            let bits = rng.range(1, 62);
+            let at = rng.usize(e.len() + 1);
+            e.insert(at, (id, rng.below(1 << bits)));
+        }
+    }
     // avoid accidental duplicates half of the time to get enough valid payloads
     if rng.chance(2, 3) {
         let mut seen = Vec::new();
